@@ -75,6 +75,8 @@ def program_source(nodes: List[Dict[str, Any]], task_deps: List[Any], task: Dict
         body += "        raise ValueError('boom')\n"
     elif kind == "base":
         body += "        raise KeyboardInterrupt()\n"
+    elif kind == "badstr":
+        body += "        raise BadStr()\n"
     elif kind == "nores":
         body += "        from taskiq.exceptions import NoResultError\n        raise NoResultError()\n"
     else:
@@ -93,6 +95,13 @@ def program_source(nodes: List[Dict[str, Any]], task_deps: List[Any], task: Dict
     return "\n\n".join(L)
 
 
+class BadStr(Exception):
+    """a domain error whose text is looked up somewhere and the look-up fails: str(exc) raises."""
+
+    def __str__(self) -> str:
+        raise KeyError(7)
+
+
 def build(nodes: List[Dict[str, Any]], task_deps: List[Any], task: Dict[str, Any], log: Callable[..., None]) -> Any:
     """exec the program in a throw-away module registered in sys.modules (the task decorator does
     sys.modules[func.__module__]); returns (module, task_function)."""
@@ -100,6 +109,7 @@ def build(nodes: List[Dict[str, Any]], task_deps: List[Any], task: Dict[str, Any
     name = f"vt_depgraph_{_COUNTER[0] % 64}"
     mod = types.ModuleType(name)
     mod.LOG = log  # type: ignore[attr-defined]
+    mod.BadStr = BadStr  # type: ignore[attr-defined]
     sys.modules[name] = mod
     src = program_source(nodes, task_deps, task)
     exec(compile(src, f"<{name}>", "exec"), mod.__dict__)
